@@ -31,6 +31,9 @@ type ResetProcessor struct {
 	visitedNodes map[*yaml.Node][]string
 	// expanding holds the anchored nodes whose alias is currently being expanded
 	expanding map[*yaml.Node]bool
+	// nodeCount and aliasNodeCount count the nodes visited, in total and while expanding aliases
+	nodeCount      int
+	aliasNodeCount int
 }
 
 // UnmarshalYAML implement yaml.Unmarshaler
@@ -50,6 +53,15 @@ func (p *ResetProcessor) UnmarshalYAML(value *yaml.Node) error {
 
 // resolveReset detects `!reset` tag being set on yaml nodes and record position in the yaml tree
 func (p *ResetProcessor) resolveReset(node *yaml.Node, path tree.Path) (*yaml.Node, error) {
+	// aliases are expanded here, before the yaml decoder can apply its own guard against
+	// documents that grow exponentially by aliasing: apply the same rule as yaml.v3 does
+	p.nodeCount++
+	if len(p.expanding) > 0 {
+		p.aliasNodeCount++
+	}
+	if p.aliasNodeCount > 100 && p.nodeCount > 1000 && float64(p.aliasNodeCount)/float64(p.nodeCount) > allowedAliasRatio(p.nodeCount) {
+		return nil, fmt.Errorf("document contains excessive aliasing")
+	}
 	pathStr := path.String()
 	// If the path contains "<<", removing the "<<" element and merging the path
 	if strings.Contains(pathStr, ".<<") {
@@ -117,6 +129,20 @@ func (p *ResetProcessor) resolveReset(node *yaml.Node, path tree.Path) (*yaml.No
 		node.Content = nodes
 	}
 	return node, nil
+}
+
+// allowedAliasRatio is the share of nodes that may come from alias expansion, as in yaml.v3:
+// 99% for small documents, scaling down to 10% for documents of 4M nodes and more
+func allowedAliasRatio(nodeCount int) float64 {
+	const low, high = 400000, 4000000
+	switch {
+	case nodeCount <= low:
+		return 0.99
+	case nodeCount >= high:
+		return 0.10
+	default:
+		return 0.99 - 0.89*(float64(nodeCount-low)/float64(high-low))
+	}
 }
 
 // Apply finds the go attributes matching recorded paths and reset them to zero value
